@@ -10,6 +10,7 @@ from vf.vloop import run_virtual, HangDetected
 
 ID = "C08"
 LEVEL = "exploration"
+BACKENDS = ["pydantic", "fallback"]   # every case is executed under both validation backends
 SHARDS = {"quick": 4, "thorough": 16}
 BUDGET_S = {"quick": 90.0, "thorough": 600.0}
 TECHNIQUE = ("runtime monitoring: return value / escaping exception of the real ProtocolHandler.handle_message on an "
@@ -67,7 +68,8 @@ def build_server():
     for name, exc in (("raise_value", ValueError("bad \n value")), ("raise_key", KeyError("k")),
                       ("raise_runtime", RuntimeError("boom")), ("raise_type", TypeError("t")),
                       ("raise_timeout", asyncio.TimeoutError()), ("raise_custom", type("Custom", (Exception,), {})("c")),
-                      ("raise_unicode", ValueError("  sep \U0001f600"))):
+                      ("raise_unicode", ValueError("\u2028 sep \U0001f600")), ("raise_noargs", NotImplementedError()),
+                      ("raise_assert", AssertionError()), ("raise_lookup", LookupError())):
         srv.register_tool(name, mk_raiser(exc), {"type": "object"})
 
     async def res_ok():
@@ -93,6 +95,18 @@ def build_server():
     async def custom_note_raise(message, session_id):
         raise ValueError("notification handler failed")
 
+    def mk_custom_raiser(exc):
+        async def h(message, session_id):
+            raise exc
+        return h
+
+    # exceptions without arguments, with non-string arguments, with several arguments
+    for name, exc in (("custom/raise_noargs", NotImplementedError()), ("custom/raise_timeout", TimeoutError()),
+                      ("custom/raise_assert", AssertionError()), ("custom/raise_intarg", ValueError(7)),
+                      ("custom/raise_twoargs", OSError(2, "No such file")), ("custom/raise_keyerror", KeyError("k")),
+                      ("custom/raise_unicode", RuntimeError("\u2028\n\U0001f600")), ("custom/raise_stopasync", StopAsyncIteration()),
+                      ("custom/raise_lookup", LookupError())):
+        ph.register_method(name, mk_custom_raiser(exc))
     ph.register_method("custom/ok", custom_ok)
     ph.register_method("custom/raise", custom_raise)
     ph.register_method("notifications/custom-ok", custom_note)
@@ -101,8 +115,11 @@ def build_server():
     return srv
 
 
+CUSTOM_RAISERS = ["custom/raise_noargs", "custom/raise_timeout", "custom/raise_assert", "custom/raise_intarg",
+                  "custom/raise_twoargs", "custom/raise_keyerror", "custom/raise_unicode", "custom/raise_stopasync",
+                  "custom/raise_lookup"]
 RAISING_TOOLS = {"raise_value", "raise_key", "raise_runtime", "raise_type", "raise_timeout", "raise_custom",
-                 "raise_unicode", "sync"}
+                 "raise_unicode", "sync", "raise_noargs", "raise_assert", "raise_lookup"}
 GOOD_TOOLS = {"echo", "dict", "list", "none", "bytes", "obj"}
 
 IDS = [0, -1, 1, 2**53, 2**63, "", "x", "123", "007", "id with space", "ü\U0001f600"]
@@ -139,7 +156,7 @@ def params_shapes(method: str) -> List[Any]:
 def gen_cases(ctx):
     rng = ctx.sub_rng("c08")
     core = ["initialize", "ping", "tools/list", "tools/call", "resources/list", "resources/read", "custom/ok",
-            "custom/raise"]
+            "custom/raise"] + CUSTOM_RAISERS
     notes = notification_names() + ["notifications/custom-ok", "notifications/custom-raise", "notifications/unknown-thing"]
     randoms = ["", " ", "nope", "tools/", "tools/call ", "TOOLS/CALL", "rpc.discover", " ", "a" * 300,
                "notifications/", "prompts/list", "completion/complete", "logging/setLevel", "sampling/createMessage"]
@@ -179,7 +196,7 @@ def expected_codes(case) -> Any:
     m, p = case["method"], case["params"]
     pd = p if isinstance(p, dict) else {}
     registered = {"initialize", "ping", "tools/list", "tools/call", "resources/list", "resources/read", "custom/ok",
-                  "custom/raise"}
+                  "custom/raise"} | set(CUSTOM_RAISERS)
     if m == "":
         return ("error", {-32600, -32601})
     if m not in registered and not m.startswith("notifications/"):
@@ -191,7 +208,7 @@ def expected_codes(case) -> Any:
         return ("error", {-32603})
     if m in ("notifications/initialized", "notifications/custom-ok"):
         return ("anything",)  # a request id on a notification name: statement silent
-    if m == "custom/raise":
+    if m == "custom/raise" or m in CUSTOM_RAISERS:
         return ("error", {-32603})
     if m in ("ping", "tools/list", "resources/list", "custom/ok"):
         return ("result",)
